@@ -50,11 +50,11 @@ def no_inv(num, w, mem=None):
 
 
 def arg_le(i, name, bound):
-    return lambda num, w: [le(num.aff(("arg", i, name)), const(bound if not callable(bound) else bound(w)))]
+    return lambda num, w: [le(num.aff(("arg", i, mir.argname(i, name))), const(bound if not callable(bound) else bound(w)))]
 
 
 def arg_ge(i, name, bound):
-    return lambda num, w: [le(const(bound), num.aff(("arg", i, name)))]
+    return lambda num, w: [le(const(bound), num.aff(("arg", i, mir.argname(i, name))))]
 
 
 def both(*fs):
@@ -96,7 +96,7 @@ def arg_assert_path(p):
         ex = mir.expand(t, p)
         if isinstance(ex, tuple) and ex and ex[0] == "binop" and ex[1] == "Eq" and op == "==" and v == 0:
             s = str(ex)
-            if "wrapping_sub" in s and "'arg', 2, 'value'" in s and "'arg', 3, 'n_bits'" in s and "BitAnd" in s:
+            if "wrapping_sub" in s and "'arg', 2, 'arg2'" in s and "'arg', 3, 'arg3'" in s and "BitAnd" in s:
                 return True
     return False
 
@@ -273,7 +273,7 @@ def reader_specs():
                         pre=both(arg_ge(2, "n_bits", 1), arg_le(2, "n_bits", lambda w: w)),
                         doc="precondition 1 <= n <= W::BITS: the look-ahead a single refill from an empty buffer can guarantee (derived, see T4)"))
         out.append(Spec("reader.%s.skip_bits_after_peek" % e, dict(name="skip_bits_after_peek", trait_is=tr, impl_self=sf), READER_W, reader_inv(),
-                        pre=lambda num, w: [le(num.aff(("arg", 2, "n_bits")), num.aff(fld(SELF, "bits_in_buffer")))],
+                        pre=lambda num, w: [le(num.aff(("arg", 2, "arg2")), num.aff(fld(SELF, "bits_in_buffer")))],
                         doc="precondition: n <= bits just peeked (<= bits_in_buffer)"))
         out.append(Spec("reader.%s.read_bits" % e, dict(name="read_bits", trait_is=tr, impl_self=sf), READER_W, reader_inv(), pre=arg_le(2, "n_bits", 64)))
         out.append(Spec("reader.%s.read_unary" % e, dict(name="read_unary", trait_is=tr, impl_self=sf), READER_W, reader_inv(), post_ok=unary_terminator))
@@ -321,7 +321,7 @@ def code_specs():
     S("zeta.read", dict(path="codes::zeta::default_read_zeta"), both(arg_ge(2, "k", 1), arg_le(2, "k", 63)))
     S("zeta.len", dict(path="codes::zeta::len_zeta_param"), both(arg_le(1, "n", nmax), arg_ge(2, "k", 1), arg_le(2, "k", 63)))
     S("minimal_binary.write", dict(path="codes::minimal_binary::MinimalBinaryWrite::write_minimal_binary"),
-      lambda num, w: [le(const(1), num.aff(("arg", 3, "max"))), lt(num.aff(("arg", 2, "n")), num.aff(("arg", 3, "max")))], "max >= 1, n < max")
+      lambda num, w: [le(const(1), num.aff(("arg", 3, "arg3"))), lt(num.aff(("arg", 2, "arg2")), num.aff(("arg", 3, "arg3")))], "max >= 1, n < max")
     S("minimal_binary.read", dict(path="codes::minimal_binary::MinimalBinaryRead::read_minimal_binary"), arg_ge(2, "max", 1))
     S("minimal_binary.len", dict(path="codes::minimal_binary::len_minimal_binary"))
     S("pi.write", dict(path="codes::pi::PiWrite::write_pi"), both(arg_le(2, "n", nmax), arg_le(3, "k", 63)))
